@@ -77,9 +77,21 @@ pub const RULE: &str = "a case counts once per distinct canonical JSON text of i
 
 /// Run the generators of `prop` within `budget`. Generators whose tags match `key` go
 /// first. Each generator gets an equal share of the remaining time; unused time rolls over.
+static DEADLINE: Mutex<Option<Instant>> = Mutex::new(None);
+
+/// Time left of the current witness/search budget (None outside a budgeted run, e.g. `replay`).
+/// Generators with very slow cases use it to decide whether to start at all; a case that has
+/// started is always allowed to finish.
+pub fn remaining_budget() -> Option<Duration> {
+    DEADLINE.lock().ok().and_then(|d| *d).map(|d| d.saturating_duration_since(Instant::now()))
+}
+
 pub fn run(prop: &str, key: &str, seed: u64, budget: Duration, skip: &[String]) -> Outcome {
     let start = Instant::now();
     let deadline = start + budget;
+    if let Ok(mut d) = DEADLINE.lock() {
+        *d = Some(deadline);
+    }
     let mut gens: Vec<Gen> = all_gens().into_iter().filter(|g| g.prop == prop && !skip.iter().any(|s| s == g.name)).collect();
     let key_l = key.to_lowercase();
     gens.sort_by_key(|g| if g.tags.iter().any(|t| key_l.contains(&t.to_lowercase())) { 0 } else { 1 });
